@@ -92,6 +92,7 @@ def write_replay(prop, case, sig, detail, seed, tier):
     tag = hashlib.sha256(("%s|%s" % sig).encode()).hexdigest()[:10]
     path = os.path.join(d, "%s-%s-%s.json" % (sig[0].replace(" ", "_").replace("/", "_")[:40], tag,
                                                case.get("run_seed", seed)))
+    case = {k: v for k, v in case.items() if not k.startswith("_cache_")}
     doc = {"property": prop.ID, "seed": seed, "tier": tier, "signature": list(sig),
            "detail": detail, "case": case, "tree": target.tree_id()}
     with open(path, "w") as fobj:
@@ -139,6 +140,10 @@ def main(prop, tier, replay_path=None):
     max_runs = cfg.get("max_runs", 10 ** 9)
     run_timeout = cfg.get("run_timeout", 60.0)
 
+    if hasattr(prop, "prepare"):
+        # computed once in the (pristine) template process, e.g. fresh-process references
+        # for a fixed alphabet of programs; handed to the generators through cfg
+        cfg.update(prop.prepare(cfg) or {})
     agg = evidence.Aggregate(prop, tier, seed)
     known = findings.load(prop.ID)
     pool = forkrun.ForkPool(workers, timeout=run_timeout)
